@@ -1,17 +1,18 @@
 (* C08 -- service order.  One case = one service start at a node with a built-in
    discipline: the discipline (0 FIFO, 1 LIFO, 2 SIRO), the chosen customer, and the node's
-   priority classes at the moment of the choice, each a list of (id, waiting?, arrival date)
-   in list order, highest priority (lowest number) first. *)
+   priority classes at the moment of the choice, each a list of (id, waiting?, arrival date,
+   priority DECLARED for the customer's class in the parameters) in list order, highest priority
+   (lowest number) first. *)
 From Coq Require Import ZArith List Bool Lia.
 From CiwV Require Import Sx Prelude Trace.
 Import ListNotations.
 Open Scope Z_scope.
 
-Record cust := mkC { c_id : Z; c_wait : bool; c_arr : Z }.
+Record cust := mkC { c_id : Z; c_wait : bool; c_arr : Z; c_prio : Z }.
 Record start := mkStart { disc : Z; chosen : Z; classes : list (list cust) }.
 
 Definition decode_cust (s : sx) : option cust :=
-  match s with L [A i; w; A a] => do w' <- getBool w; Some (mkC i w' a) | _ => None end.
+  match s with L [A i; w; A a; A p] => do w' <- getBool w; Some (mkC i w' a p) | _ => None end.
 Definition decode_start (s : sx) : option start :=
   match s with
   | L [A d; A c; cls] =>
@@ -34,7 +35,15 @@ Fixpoint sorted_arr (l : list cust) : bool :=
   | a :: r => (match r with [] => true | b :: _ => c_arr a <=? c_arr b end) && sorted_arr r
   end.
 
+(* every waiting customer sits in the list of the priority class declared for its customer class *)
+Fixpoint placed (p : Z) (cls : list (list cust)) : bool :=
+  match cls with
+  | [] => true
+  | l :: r => forallb (fun c => c_prio c =? p) (waiting l) && placed (p + 1) r
+  end.
+
 Definition start_clause (s : start) : option Z :=
+  if negb (placed 0 (classes s)) then Some 55 else
   match first_class (classes s) with
   | None => Some 50                                   (* nobody was waiting *)
   | Some l =>
@@ -97,14 +106,27 @@ Definition P_start (s : start) : Prop :=
     (* FIFO: it is the first waiting one in list order, and no waiting customer of its class arrived earlier *)
     (disc s = 0 -> exists c w, waiting l = c :: w /\ c_id c = chosen s /\ forall b, In b w -> c_arr c <= c_arr b) /\
     (* LIFO: it is the last waiting one in list order *)
-    (disc s = 1 -> exists c w, rev (waiting l) = c :: w /\ c_id c = chosen s).
+    (disc s = 1 -> exists c w, rev (waiting l) = c :: w /\ c_id c = chosen s) /\
+    (* the lists are the DECLARED priority classes: the p-th list holds waiting customers of declared priority p only *)
+    (forall p q c, nth_error (classes s) p = Some q -> In c q -> c_wait c = true -> c_prio c = Z.of_nat p).
+
+Lemma placed_spec : forall cls p0, placed p0 cls = true ->
+  forall p q c, nth_error cls p = Some q -> In c q -> c_wait c = true -> c_prio c = p0 + Z.of_nat p.
+Proof.
+  induction cls as [|l r IH]; intros p0 H p q c Hn Hc Hw; [destruct p; discriminate|].
+  cbn in H. apply andb_true_iff in H as [H1 H2]. destruct p as [|p]; cbn in Hn.
+  - injection Hn as <-. rewrite forallb_forall in H1. assert (Hin : In c (waiting l)) by (apply filter_In; auto).
+    specialize (H1 _ Hin). apply Z.eqb_eq in H1. lia.
+  - specialize (IH _ H2 p q c Hn Hc Hw). lia.
+Qed.
 
 Lemma start_clause_ok s : start_clause s = None -> P_start s.
 Proof.
-  unfold start_clause. destruct (first_class (classes s)) as [l|] eqn:Ef; [|discriminate].
+  unfold start_clause. destruct (placed 0 (classes s)) eqn:Epl; cbn [negb]; [|discriminate].
+  destruct (first_class (classes s)) as [l|] eqn:Ef; [|discriminate].
   destruct (first_class_spec _ _ Ef) as (pre & post & Ecls & Hpre & Hne).
   destruct (existsb (fun c => c_id c =? chosen s) (waiting l)) eqn:Ex; cbn; [|discriminate].
-  intros H. exists pre, l, post. split; [exact Ecls|]. split; [|split; [|split]].
+  intros H. exists pre, l, post. split; [exact Ecls|]. split; [|split; [|split; [|split]]].
   - intros q c Hq Hc. specialize (Hpre q Hq). destruct (c_wait c) eqn:Ew; [|reflexivity].
     assert (In c (waiting q)) by (apply filter_In; auto). rewrite Hpre in H0. destruct H0.
   - apply existsb_exists in Ex as (c & Hc & Eid). apply filter_In in Hc as [Hc Hw]. apply Z.eqb_eq in Eid. eauto.
@@ -113,6 +135,7 @@ Proof.
     apply Z.eqb_eq in Ec. exists c, w. split; [reflexivity|split; [exact Ec|]]. apply sorted_head_min. exact Es.
   - intros Hd. rewrite Hd in H. cbn in H. destruct (rev (waiting l)) as [|c w] eqn:Ew; [discriminate|].
     destruct (c_id c =? chosen s) eqn:Ec; [|discriminate]. apply Z.eqb_eq in Ec. eauto.
+  - intros p q c Hn Hc Hw. apply (placed_spec _ _ Epl p q c Hn Hc Hw).
 Qed.
 
 Theorem C08_sound : forall l st, acc l = Accept st -> forall s, In s l -> P_start s.
@@ -124,9 +147,9 @@ Proof.
 Qed.
 
 Example acc_example :
-  is_accept (acc [ mkStart 0 7 [[mkC 3 false 1]; [mkC 7 true 2; mkC 9 true 4]];
-                   mkStart 1 9 [[]; [mkC 7 true 2; mkC 9 true 4]] ]) = true.
+  is_accept (acc [ mkStart 0 7 [[mkC 3 false 1 0]; [mkC 7 true 2 1; mkC 9 true 4 1]];
+                   mkStart 1 9 [[]; [mkC 7 true 2 1; mkC 9 true 4 1]] ]) = true.
 Proof. vm_compute. reflexivity. Qed.
 Example rej_priority :
-  acc [ mkStart 0 7 [[mkC 3 true 1]; [mkC 7 true 2]] ] = Reject 0 51 [].
+  acc [ mkStart 0 7 [[mkC 3 true 1 0]; [mkC 7 true 2 1]] ] = Reject 0 51 [].
 Proof. vm_compute. reflexivity. Qed.
